@@ -115,7 +115,8 @@ Sem(e, V, B) ==
          ELSE [Res(SetV(Sub(s, 1, e.a)), B) EXCEPT !.drops = IdsOf(Sub(s, e.a + 1, len))]
     [] e.op = "clear" -> [Res(SetV(<<>>), B) EXCEPT !.drops = IdsOf(s)]
     [] e.op = "resize" ->
-         IF e.a > len THEN Res(SetV(s \o [i \in 1..(e.a - len) |-> New(val1)]), B)
+         IF e.a < 0 THEN Panic(V, B)                                             \* capacity overflow
+         ELSE IF e.a > len THEN Res(SetV(s \o [i \in 1..(e.a - len) |-> New(val1)]), B)
          ELSE [Res(SetV(Sub(s, 1, e.a)), B) EXCEPT !.drops = IdsOf(Sub(s, e.a + 1, len))]
     [] e.op \in {"extend_from_slice", "extend"} -> Res(SetV(s \o NewSeq(e.vals)), B)
     [] e.op = "append" ->
